@@ -402,11 +402,14 @@ static void _GD_Delete(DIRFILE *restrict D, gd_entry_t *restrict E,
   /* Clear clients and derived fields */
   for (j = 0; j < D->n_entries; ++j)
     for (i = 0; i < n_del; ++i)
+    {
       if ((del_list[i]->field_type == GD_CONST_ENTRY ||
             del_list[i]->field_type == GD_CARRAY_ENTRY) && flags & GD_DEL_DEREF)
         _GD_DeReference(D, D->entry[j], del_list[i], 0);
-      else
-        _GD_ClearDerived(D, D->entry[j], del_list[i], 0);
+
+      /* aliases and cached inputs may point at a scalar, too */
+      _GD_ClearDerived(D, D->entry[j], del_list[i], 0);
+    }
 
   if (E->e->n_meta >= 0) {
     if (n_del > 1) {
